@@ -11,11 +11,11 @@ package stats
 func Stats$1
   props C08 C09 C10
   refines parser.StopOnErr
-  modifies *
+  modifies lastLogDate, err, firstLogDate, countLog
 func Stats$2
   props C08 C09 C10
   refines parser.StopOnErr
-  modifies *
+  modifies countDb
 
 func NewStatsReporter returns (sr)
   props C17 C08
@@ -33,4 +33,18 @@ func (StatsReporter).Flush returns (err)
   modifies ghost(bufSticky, sinkFailed, sinkPend, prLen, prSink, prArg, prArgs)
   ensures @sink [C17] BufStep(sr.output)
   ensures @reports-loss [C17] (err != nil) == bufSticky[sr.output] && (err == nil ==> sinkPend[bufSink[sr.output]] == 0)
+
+// stats: both files are read to their end with a stop-on-error callback, then the figures are printed
+func Stats returns (err)
+  props C08 C09 C10 C17
+  requires @sink sc.ReporterConfig.Output != nil && !typeis(sc.ReporterConfig.Output, "*bufio.Writer") && !typeis(sc.ReporterConfig.Output, "*encoding/csv.Writer")
+  calluse ParseFileCallback#1 stats1
+  calluse ParseFileCallback#2 stats2
+  modifies ghost(cbLen, cbErr, cbNode, cbStop, cbRet, cbLineNo, cbLine, cbHeader, cbElems, cbNElems, scRd, scPos, privLo, evOf, accKey, accP, accN, accH, bufSink, bufSticky, sinkFailed, sinkPend, prLen, prSink, prArg, prArgs, tnodes, tdepth, tmax, tmapOf, lastOpen)
+  let out := payload(sc.ReporterConfig.Output)
+  let cc := sc.ParserConfig.CommentChar
+  ghost after call 1 ParseFileCallback { let logf := lastOpen }
+  ensures @log-read [C09 C10] err == nil ==> FileNameOf(logf) == logFileName && !RdFailed(logf) && (forall i int :: {RdLine(logf, i)} 0 <= i && i < RdN(logf) ==> !Malformed(logf, i, cc))
+  ensures @book-read [C09 C10] err == nil ==> FileNameOf(lastOpen) == dbFileName && !RdFailed(lastOpen) && (forall i int :: {RdLine(lastOpen, i)} 0 <= i && i < RdN(lastOpen) ==> !Malformed(lastOpen, i, cc))
+  ensures @reports-loss [C17] err == nil ==> (sinkFailed[out] ==> old(sinkFailed[out])) && sinkPend[out] == 0
 @*/
